@@ -6,6 +6,7 @@
 -/
 import FlacModel.Proofs.Bits
 import FlacModel.Gen.Kernels
+import FlacModel.Gen.Resid
 
 namespace Flac.C19
 open Flac Gen
@@ -46,6 +47,72 @@ theorem constant_block_small_partial (fixedBits lpcBits hdr n bps : Nat) :
   by_cases hk : encPickCandidate fixedBits lpcBits < n * bps
   · simp [hk]; omega
   · simp [hk]; omega
+
+/-! ### the constant-block clause: what a block of equal samples costs does not depend on its length
+
+Facts regenerated from the source (`Gen/Resid.lean`): a partition whose residuals are all zero gets the zero-width escape
+header (9 or 10 bits, no residual bits); no candidate has more than `encMaxPartitions` partitions; an all-zero channel
+is written as a CONSTANT subframe.  A block of equal non-zero samples has an all-zero FIXED residual from order 1 on, so
+the FIXED candidate the encoder records is a subframe of the shape bounded below, whatever orders it picked; and the
+subframe finally written is never larger than the FIXED candidate (`pick_le_fixed`, `subframe_bits_le_verbatim`). -/
+
+theorem zero_partition_is_constant : encZeroPartitionIsConstant = true := rfl
+theorem all_zero_is_constant_subframe : encAllZeroIsConstantSubframe = true := rfl
+
+/-- every partition is the zero-width escape -/
+def zeroParts (r : Residual) : Prop := ∀ pt ∈ r.parts, ∃ n, pt = Partition.zero n
+
+theorem zero_parts_bits (pbits : Nat) (hp : pbits ≤ 5) (parts : List Partition) (hz : ∀ pt ∈ parts, ∃ n, pt = Partition.zero n) :
+    (parts.flatMap (writePartition pbits)).length ≤ parts.length * 10 := by
+  induction parts with
+  | nil => simp
+  | cons pt parts ih =>
+    obtain ⟨n, rfl⟩ := hz pt (by simp)
+    have := ih (fun q hq => hz q (by simp [hq]))
+    simp only [List.flatMap_cons, List.length_append, writePartition, natToBits_length, List.length_cons]
+    omega
+
+/-- a residual block of zero-width partitions: 6 bits of coding method and order, at most 10 bits per partition -/
+theorem zero_residual_bits (r : Residual) (hm : r.method ≤ 1) (hz : zeroParts r) (hn : r.parts.length ≤ encMaxPartitions) :
+    (writeResidual r).length ≤ 6 + encMaxPartitions * 10 := by
+  have := zero_parts_bits (4 + r.method) (by omega) r.parts hz
+  simp only [writeResidual, List.length_append, natToBits_length]
+  have h64 : encMaxPartitions = 64 := rfl
+  omega
+
+theorem subheader_bits (ty w : Nat) : (writeSubHeader ty w).length = 8 + w := by
+  by_cases h : w = 0
+  · subst h; simp [writeSubHeader]
+  · have : (w == 0) = false := by simpa using h
+    simp only [writeSubHeader, this, Bool.false_eq_true, if_false, List.length_append, List.length_cons, List.length_nil,
+      natToBits_length, writeUnary1, List.length_replicate]
+    omega
+
+theorem warm_bits (d : Nat) (warm : List Int) : (warm.flatMap (intToBits d)).length = warm.length * d := by
+  induction warm with
+  | nil => simp
+  | cons x xs ih => simp only [List.flatMap_cons, List.length_append, intToBits_length, ih, List.length_cons]; rw [Nat.succ_mul]; omega
+
+/-- **the FIXED candidate of a block with all-zero residual**: at most 8 + wasted + 4 warm-up samples + 646 bits,
+    whatever the block length -/
+theorem fixed_zero_candidate_bits (bps w o : Nat) (warm : List Int) (res : Residual) (ho : o ≤ 4) (hwl : warm.length = o)
+    (hm : res.method ≤ 1) (hz : zeroParts res) (hn : res.parts.length ≤ encMaxPartitions) :
+    (writeSubframe bps { wasted := w, body := .fixed o warm res }).length ≤ 8 + w + 4 * (bps - w) + (6 + encMaxPartitions * 10) := by
+  have h1 := zero_residual_bits res hm hz hn
+  simp only [writeSubframe, List.length_append, subheader_bits, warm_bits, hwl]
+  have : o * (bps - w) ≤ 4 * (bps - w) := Nat.mul_le_mul_right _ ho
+  omega
+
+/-- **constant_block_small**: with the FIXED candidate of a constant block bounded as above, the subframe written for the
+    channel costs at most that bound plus the VERBATIM header allowance - for every block length `n`, every LPC
+    candidate, every depth -/
+theorem constant_block_small (bps w o : Nat) (warm : List Int) (res : Residual) (ho : o ≤ 4) (hwl : warm.length = o)
+    (hm : res.method ≤ 1) (hz : zeroParts res) (hn : res.parts.length ≤ encMaxPartitions) (lpcBits hdr n : Nat) :
+    chosenBits (some (encPickCandidate (writeSubframe bps { wasted := w, body := .fixed o warm res }).length lpcBits)) hdr n bps
+      ≤ 8 + w + 4 * (bps - w) + (6 + encMaxPartitions * 10) + hdr := by
+  have h1 := fixed_zero_candidate_bits bps w o warm res ho hwl hm hz hn
+  have h2 := constant_block_small_partial (writeSubframe bps { wasted := w, body := .fixed o warm res }).length lpcBits hdr n bps
+  omega
 
 /-- a frame header never exceeds 16 bytes: 15+1+4+4+4+3+1 fixed bits, a coded number of at most
     7 bytes, at most 16 bits of block size, at most 16 bits of sample rate, and the CRC-8 -/
